@@ -1,4 +1,5 @@
 import Scion.Model.DrkeySrv
+import Scion.Proofs.DrkeySrv
 import Scion.Gen.Drkey
 /-!
 # C40 — DRKey keys are only handed to the entities they are bound to
@@ -13,73 +14,8 @@ requester": the handlers return the engine's answer unchanged.
 namespace Scion.C40
 open Scion.Util Scion.DrkeySrv
 
-/-! ## host identity -/
-
-/-- a byte string that is an IP address (what a TCP connection's remote address carries) -/
-def IsIP (b : Bytes) : Prop := b.length = 4 ∨ b.length = 16
-
-/-- canonical form of an IP: an IPv4-mapped IPv6 address *is* the IPv4 host (this is also what
-    `slayers.PackAddr` derives keys for, see C39) -/
-def unmap (b : Bytes) : Bytes :=
-  if b.length = 16 ∧ b.take 12 = v4InV6Prefix then b.drop 12 else b
-
-/-- the requester `ip` is the host a request names by `x = net.ParseIP(text)` -/
-def SameHost (ip x : Bytes) : Prop := IsIP ip ∧ IsIP x ∧ unmap ip = unmap x
-
-private theorem take_drop_eq {a b : Bytes} (h1 : a.take 12 = b.take 12) (h2 : a.drop 12 = b.drop 12) :
-    a = b := by
-  rw [← List.take_append_drop 12 a, ← List.take_append_drop 12 b, h1, h2]
-
-/-- `net.IP.Equal` on a real requester address decides host identity -/
-theorem ipEqual_iff_sameHost (ip x : Bytes) (hip : IsIP ip) :
-    ipEqual ip x = true ↔ SameHost ip x := by
-  unfold SameHost IsIP unmap ipEqual
-  unfold IsIP at hip
-  have pl : v4InV6Prefix.length = 12 := rfl
-  constructor
-  · intro h
-    split at h
-    · rename_i hl
-      have : ip = x := by simpa using h
-      subst this
-      exact ⟨hip, hip, rfl⟩
-    · split at h
-      · rename_i hl
-        simp only [Bool.and_eq_true, beq_iff_eq] at h
-        refine ⟨hip, .inr hl.2, ?_⟩
-        simp [hl.1, hl.2, h.1, h.2]
-      · split at h
-        · rename_i hl
-          simp only [Bool.and_eq_true, beq_iff_eq] at h
-          refine ⟨hip, .inl hl.2, ?_⟩
-          simp [hl.1, hl.2, h.1, h.2]
-        · cases h
-  · rintro ⟨_, hx, hu⟩
-    rcases hip with h4 | h16 <;> rcases hx with x4 | x16
-    · simp only [h4, x4, if_true]
-      simp [h4, x4] at hu
-      simpa using hu
-    · have : ¬ (ip.length = x.length) := by omega
-      simp only [this, if_false, h4, x16, and_self, if_true]
-      simp only [h4, x16, true_and] at hu
-      split at hu
-      · rename_i hp; simp [hp, hu]
-      · have := congrArg List.length hu; omega
-    · have : ¬ (ip.length = x.length) := by omega
-      have n2 : ¬ (ip.length = 4 ∧ x.length = 16) := by omega
-      simp only [this, n2, if_false, h16, x4, and_self, if_true]
-      simp only [h16, x4, true_and] at hu
-      split at hu
-      · rename_i hp; simp [hp, hu]
-      · have := congrArg List.length hu; omega
-    · simp only [h16, x16, if_true]
-      simp only [h16, x16, true_and] at hu
-      by_cases c1 : ip.take 12 = v4InV6Prefix <;> by_cases c2 : x.take 12 = v4InV6Prefix <;>
-        simp only [c1, c2, if_true, if_false] at hu
-      · simpa using take_drop_eq (c1.trans c2.symm) hu
-      · have := congrArg List.length hu; simp at this; omega
-      · have := congrArg List.length hu; simp at this; omega
-      · simpa using hu
+/-! Host identity (`IsIP`, `unmap`, `SameHost`) and `ipEqual_iff_sameHost` (`net.IP.Equal` on a real
+requester address decides host identity) are in `Scion.Proofs.DrkeySrv`. -/
 
 /-! ## AS-host, host-AS, host-host -/
 
@@ -91,30 +27,16 @@ theorem ashost_iff (s : Srv) (peer : Option Peer) (r : HostReq) (m : HostMeta) :
       ∃ p t ip, peer = some p ∧ p.addr = .tcp ip ∧ r.ts = some t ∧ tsValid r.ts = true ∧
         protoOf r.proto ≠ Scion.Drkey.genericProto ∧ r.dst = s.localIA ∧ ipEqual ip r.dstIP = true ∧
         m = ⟨protoOf r.proto, t, r.src, r.dst, [], r.dstHost⟩ := by
-  unfold asHost validateASHost hostAddrFromPeer
+  unfold asHost
+  refine Iff.trans (hostHandler_iff peer r.ts
+    (fun p => validateASHost (protoOf r.proto) r.dst r.dstIP s.localIA p.addr)
+    (fun t => ⟨protoOf r.proto, t, r.src, r.dst, [], r.dstHost⟩) m) ?_
+  simp only [validateASHost_iff]
   constructor
-  · intro h
-    split at h
-    · cases h
-    · rename_i p
-      split at h
-      · cases h
-      · rename_i t ht
-        cases hv : tsValid r.ts <;> simp only [hv, if_true] at h
-        · cases h
-        · by_cases hg : protoOf r.proto = Scion.Drkey.genericProto
-          · simp [hg] at h
-          · cases ha : p.addr with
-            | other => simp [hg, ha] at h
-            | tcp ip =>
-              by_cases hd : r.dst = s.localIA
-              · cases he : ipEqual ip r.dstIP
-                · simp [hg, ha, hd, he] at h
-                · simp [hg, ha, hd, he] at h
-                  exact ⟨p, t, ip, rfl, ha, ht, rfl, hg, hd, he, h.symm⟩
-              · simp [hg, ha, hd] at h
-  · rintro ⟨p, t, ip, rfl, ha, ht, hv, hg, hd, he, rfl⟩
-    simp [ht, ha, hg, hd, he, ← ht, hv]
+  · rintro ⟨p, t, hp, ht, hv, ⟨hg, ip, ha, hd, he⟩, hm⟩
+    exact ⟨p, t, ip, hp, ha, ht, hv, hg, hd, he, hm⟩
+  · rintro ⟨p, t, ip, hp, ha, ht, hv, hg, hd, he, hm⟩
+    exact ⟨p, t, hp, ht, hv, ⟨hg, ip, ha, hd, he⟩, hm⟩
 
 /-- **Host-AS**, symmetric: source AS local, requester = source host. -/
 theorem hostas_iff (s : Srv) (peer : Option Peer) (r : HostReq) (m : HostMeta) :
@@ -122,30 +44,16 @@ theorem hostas_iff (s : Srv) (peer : Option Peer) (r : HostReq) (m : HostMeta) :
       ∃ p t ip, peer = some p ∧ p.addr = .tcp ip ∧ r.ts = some t ∧ tsValid r.ts = true ∧
         protoOf r.proto ≠ Scion.Drkey.genericProto ∧ r.src = s.localIA ∧ ipEqual ip r.srcIP = true ∧
         m = ⟨protoOf r.proto, t, r.src, r.dst, r.srcHost, []⟩ := by
-  unfold hostAS validateHostAS hostAddrFromPeer
+  unfold hostAS
+  refine Iff.trans (hostHandler_iff peer r.ts
+    (fun p => validateHostAS (protoOf r.proto) r.src r.srcIP s.localIA p.addr)
+    (fun t => ⟨protoOf r.proto, t, r.src, r.dst, r.srcHost, []⟩) m) ?_
+  simp only [validateHostAS_iff]
   constructor
-  · intro h
-    split at h
-    · cases h
-    · rename_i p
-      split at h
-      · cases h
-      · rename_i t ht
-        cases hv : tsValid r.ts <;> simp only [hv, if_true] at h
-        · cases h
-        · by_cases hg : protoOf r.proto = Scion.Drkey.genericProto
-          · simp [hg] at h
-          · cases ha : p.addr with
-            | other => simp [hg, ha] at h
-            | tcp ip =>
-              by_cases hd : r.src = s.localIA
-              · cases he : ipEqual ip r.srcIP
-                · simp [hg, ha, hd, he] at h
-                · simp [hg, ha, hd, he] at h
-                  exact ⟨p, t, ip, rfl, ha, ht, rfl, hg, hd, he, h.symm⟩
-              · simp [hg, ha, hd] at h
-  · rintro ⟨p, t, ip, rfl, ha, ht, hv, hg, hd, he, rfl⟩
-    simp [ht, ha, hg, hd, he, ← ht, hv]
+  · rintro ⟨p, t, hp, ht, hv, ⟨hg, ip, ha, hd, he⟩, hm⟩
+    exact ⟨p, t, ip, hp, ha, ht, hv, hg, hd, he, hm⟩
+  · rintro ⟨p, t, ip, hp, ha, ht, hv, hg, hd, he, hm⟩
+    exact ⟨p, t, hp, ht, hv, ⟨hg, ip, ha, hd, he⟩, hm⟩
 
 /-- **Host-host**: the requester is the source host and the source AS is local, or the requester
     is the destination host and the destination AS is local. -/
@@ -156,47 +64,16 @@ theorem hosthost_iff (s : Srv) (peer : Option Peer) (r : HostReq) (m : HostMeta)
         ((r.src = s.localIA ∧ ipEqual ip r.srcIP = true) ∨
          (r.dst = s.localIA ∧ ipEqual ip r.dstIP = true)) ∧
         m = ⟨protoOf r.proto, t, r.src, r.dst, r.srcHost, r.dstHost⟩ := by
-  unfold hostHost validateHostHost hostAddrFromPeer
+  unfold hostHost
+  refine Iff.trans (hostHandler_iff peer r.ts
+    (fun p => validateHostHost (protoOf r.proto) r.src r.dst r.srcIP r.dstIP s.localIA p.addr)
+    (fun t => ⟨protoOf r.proto, t, r.src, r.dst, r.srcHost, r.dstHost⟩) m) ?_
+  simp only [validateHostHost_iff]
   constructor
-  · intro h
-    split at h
-    · cases h
-    · rename_i p
-      split at h
-      · cases h
-      · rename_i t ht
-        cases hv : tsValid r.ts <;> simp only [hv, if_true] at h
-        · cases h
-        · by_cases hg : protoOf r.proto = Scion.Drkey.genericProto
-          · simp [hg] at h
-          · cases ha : p.addr with
-            | other => simp [hg, ha] at h
-            | tcp ip =>
-              simp only [hg, ha, if_false] at h
-              split at h
-              · simp at h
-              · rename_i hc
-                simp at h
-                refine ⟨p, t, ip, rfl, ha, ht, rfl, hg, ?_, h.symm⟩
-                by_cases c1 : r.src = s.localIA ∧ ipEqual ip r.srcIP = true
-                · exact .inl c1
-                · by_cases c2 : r.dst = s.localIA ∧ ipEqual ip r.dstIP = true
-                  · exact .inr c2
-                  · exfalso; apply hc
-                    constructor
-                    · by_cases q : r.src = s.localIA
-                      · right; cases hq : ipEqual ip r.srcIP
-                        · rfl
-                        · exact absurd ⟨q, hq⟩ c1
-                      · left; exact q
-                    · by_cases q : r.dst = s.localIA
-                      · right; cases hq : ipEqual ip r.dstIP
-                        · rfl
-                        · exact absurd ⟨q, hq⟩ c2
-                      · left; exact q
-  · rintro ⟨p, t, ip, rfl, ha, ht, hv, hg, hside, rfl⟩
-    simp only [ht, ← ht, hv, ha, hg]
-    rcases hside with ⟨h1, h2⟩ | ⟨h1, h2⟩ <;> simp [h1, h2]
+  · rintro ⟨p, t, hp, ht, hv, ⟨hg, ip, ha, hside⟩, hm⟩
+    exact ⟨p, t, ip, hp, ha, ht, hv, hg, hside, hm⟩
+  · rintro ⟨p, t, ip, hp, ha, ht, hv, hg, hside, hm⟩
+    exact ⟨p, t, hp, ht, hv, ⟨hg, ip, ha, hside⟩, hm⟩
 
 /-- the clause in the statement's words: an AS-host key goes only to the host named as destination
     of a request whose destination is the local AS -/
@@ -231,9 +108,22 @@ theorem hosthost_only_named_host (s : Srv) (p : Peer) (ip : Bytes) (r : HostReq)
 /-- requesters that are not TCP peers never get a level-2/3 key -/
 theorem host_keys_need_tcp_peer (s : Srv) (p : Peer) (r : HostReq) (hp : p.addr = .other) :
     asHost s (some p) r = none ∧ hostAS s (some p) r = none ∧ hostHost s (some p) r = none := by
-  simp only [asHost, hostAS, hostHost, validateASHost, validateHostAS, validateHostHost,
-    hostAddrFromPeer, hp]
-  refine ⟨?_, ?_, ?_⟩ <;> (split <;> try rfl) <;> (split <;> try rfl) <;> (split <;> try rfl) <;> simp
+  refine ⟨?_, ?_, ?_⟩
+  · cases h : asHost s (some p) r with
+    | none => rfl
+    | some m =>
+      obtain ⟨p', _, ip, hp', ha, _⟩ := (ashost_iff s (some p) r m).1 h
+      cases hp'; rw [hp] at ha; cases ha
+  · cases h : hostAS s (some p) r with
+    | none => rfl
+    | some m =>
+      obtain ⟨p', _, ip, hp', ha, _⟩ := (hostas_iff s (some p) r m).1 h
+      cases hp'; rw [hp] at ha; cases ha
+  · cases h : hostHost s (some p) r with
+    | none => rfl
+    | some m =>
+      obtain ⟨p', _, ip, hp', ha, _⟩ := (hosthost_iff s (some p) r m).1 h
+      cases hp'; rw [hp] at ha; cases ha
 
 /-- **Never generic.** No level-2/3 key is served for protocol 0 — also not for a protocol id
     that only becomes 0 by the `int32 → uint16` conversion. -/
@@ -253,27 +143,20 @@ theorem level1_iff (s : Srv) (peer : Option Peer) (proto : Int) (ts : Ts) (m : L
     level1 s peer proto ts = some m ↔
       ∃ p ia t, peer = some p ∧ p.auth = .tlsCert ia ∧ ts = some t ∧ tsValid ts = true ∧
         Scion.Drkey.isPredefined (protoOf proto) = true ∧ m = ⟨protoOf proto, t, s.localIA, ia⟩ := by
-  unfold level1 clientCertIA
-  constructor
-  · intro h
-    split at h
-    · cases h
-    · rename_i p
-      split at h
-      · cases h
-      · rename_i ia hia
-        split at h
-        · cases h
-        · rename_i t
-          cases hv : tsValid (some t) <;> simp only [hv, if_true] at h
-          · cases h
-          · cases hp : Scion.Drkey.isPredefined (protoOf proto) <;> simp [hp] at h
-            refine ⟨p, ia, t, rfl, ?_, rfl, hv, hp, h.symm⟩
-            split at hia
-            · rename_i ia' ha; cases hia; exact ha
-            · cases hia
-  · rintro ⟨p, ia, t, rfl, ha, rfl, hv, hp, rfl⟩
-    simp [ha, hv, hp]
+  unfold level1
+  cases peer with
+  | none => simp
+  | some p =>
+    obtain ⟨a, auth⟩ := p
+    cases auth with
+    | tlsCert ia =>
+      cases ts with
+      | none => simp [clientCertIA]
+      | some t =>
+        cases hv : tsValid (some t) <;> cases hp : Scion.Drkey.isPredefined (protoOf proto) <;>
+          simp [hv, hp, clientCertIA]
+        exact eq_comm
+    | _ => simp [clientCertIA]
 
 theorem level1_only_cert_ia (s : Srv) (p : Peer) (proto : Int) (ts : Ts) (m : Level1Meta)
     (h : level1 s (some p) proto ts = some m) :
@@ -295,8 +178,8 @@ theorem allowedHost_iff (s : Srv) (proto : Nat) (a : PeerAddr) :
   | other => simp
   | tcp ip =>
     cases hf : fromStdIP ip with
-    | none => simp
-    | some h => simp [List.contains_iff_mem]
+    | none => simp [hf]
+    | some h => simp [hf]
 
 /-- **Secret values** go exactly to allow-listed (host, protocol) pairs. -/
 theorem sv_iff (s : Srv) (peer : Option Peer) (proto : Int) (ts : Ts) (m : SVMeta) :
@@ -304,21 +187,16 @@ theorem sv_iff (s : Srv) (peer : Option Peer) (proto : Int) (ts : Ts) (m : SVMet
       ∃ p t, peer = some p ∧ ts = some t ∧ tsValid ts = true ∧
         Allowed s (protoOf proto) p.addr ∧ m = ⟨protoOf proto, t⟩ := by
   unfold secretValue
-  rw [← allowedHost_iff]
-  constructor
-  · intro h
-    split at h
-    · cases h
-    · rename_i p
-      split at h
-      · cases h
-      · rename_i t
-        cases hv : tsValid (some t) <;> simp only [hv, if_true] at h
-        · cases h
-        · cases ha : allowedHost s (protoOf proto) p.addr <;> simp [ha] at h
-          exact ⟨p, t, rfl, rfl, hv, rfl, h.symm⟩
-  · rintro ⟨p, t, rfl, rfl, hv, ha, rfl⟩
-    simp [hv, ha]
+  simp only [← allowedHost_iff]
+  cases peer with
+  | none => simp
+  | some p =>
+    cases ts with
+    | none => simp
+    | some t =>
+      cases hv : tsValid (some t) <;> cases ha : allowedHost s (protoOf proto) p.addr <;>
+        simp [hv, ha]
+      exact eq_comm
 
 theorem sv_only_allowed (s : Srv) (p : Peer) (proto : Int) (ts : Ts) (m : SVMeta)
     (h : secretValue s (some p) proto ts = some m) : Allowed s m.proto p.addr := by
@@ -333,31 +211,16 @@ theorem intra_level1_iff (s : Srv) (peer : Option Peer) (proto : Int) (ts : Ts) 
       ∃ p t, peer = some p ∧ (s.localIA = src ∨ s.localIA = dst) ∧ ts = some t ∧ tsValid ts = true ∧
         Allowed s (protoOf proto) p.addr ∧ m = ⟨protoOf proto, t, src, dst⟩ := by
   unfold intraLevel1
-  rw [← allowedHost_iff]
-  constructor
-  · intro h
-    split at h
-    · cases h
-    · rename_i p
-      split at h
-      · cases h
-      · rename_i hep
-        split at h
-        · cases h
-        · rename_i t
-          cases hv : tsValid (some t) <;> simp only [hv, if_true] at h
-          · cases h
-          · cases ha : allowedHost s (protoOf proto) p.addr <;> simp [ha] at h
-            refine ⟨p, t, rfl, ?_, rfl, hv, rfl, h.symm⟩
-            by_cases c : s.localIA = src
-            · exact .inl c
-            · by_cases d : s.localIA = dst
-              · exact .inr d
-              · exact absurd ⟨c, d⟩ hep
-  · rintro ⟨p, t, rfl, hep, rfl, hv, ha, rfl⟩
-    have : ¬ (s.localIA ≠ src ∧ s.localIA ≠ dst) := by
-      rintro ⟨a, b⟩; rcases hep with h | h <;> contradiction
-    simp [this, hv, ha]
+  simp only [← allowedHost_iff]
+  cases peer with
+  | none => simp
+  | some p =>
+    by_cases c : s.localIA = src <;> by_cases d : s.localIA = dst <;>
+      (cases ts with
+       | none => simp [c, d]
+       | some t =>
+         cases hv : tsValid (some t) <;> cases ha : allowedHost s (protoOf proto) p.addr <;>
+           simp [hv, ha, c, d] <;> exact eq_comm)
 
 theorem intra_level1_requires_endpoint (s : Srv) (p : Peer) (proto : Int) (ts : Ts) (src dst : Nat)
     (m : Level1Meta) (h : intraLevel1 s (some p) proto ts src dst = some m) :
